@@ -28,11 +28,17 @@ Notation abs := DatabaseProofs.abs.
 Notation ffi_handler := FfiServer.ffi_handler.
 
 (* ================================================================ generic facts *)
-Lemma update_same {St} u (st : St) units : lookup u units = Some st -> update u st units = units.
-Proof.
-  induction units as [|[k s] rest IH]; cbn [lookup update]; [reflexivity|].
-  destruct (k =? u); [now intros [= ->]|]. intros E. now rewrite IH.
-Qed.
+Lemma sset_eq {St} (g : N -> St) h st : sset g h st h = st.
+Proof. unfold sset. now rewrite N.eqb_refl. Qed.
+Lemma sset_neq {St} (g : N -> St) h st k : k <> h -> sset g h st k = g k.
+Proof. intros Hk. unfold sset. destruct (N.eqb_spec k h); [contradiction|reflexivity]. Qed.
+Lemma sset_id {St} (g : N -> St) h st k : g h = st -> sset g h st k = g k.
+Proof. intros E. unfold sset. destruct (N.eqb_spec k h) as [->|]; [now symmetry|reflexivity]. Qed.
+
+Lemma flat_map_map {X Y Z} (f : Y -> list Z) (g : X -> Y) l : flat_map f (map g l) = flat_map (fun x => f (g x)) l.
+Proof. induction l as [|x l IH]; [reflexivity|]. cbn [map flat_map]. now rewrite IH. Qed.
+Lemma map_snd_diag (ids : list N) : map snd (map (fun u : N => (u, u)) ids) = ids.
+Proof. induction ids as [|x l IH]; [reflexivity|]. cbn [map snd]. now rewrite IH. Qed.
 
 (* the read loop of the reference server is the read loop of the database model *)
 Lemma read_seq_read_range {T} (get : N -> T + N) mk n : forall s,
@@ -141,14 +147,15 @@ Proof.
 Qed.
 
 (* the reference server on a valid, permitted request to a served unit *)
-Lemma ref_frame_served {St} (H : handler St) l a (units : list (N * St)) fr u st fc r :
-  f_dest fr = DUnit u -> lookup u units = Some st -> decode (f_pdu fr) = Valid fc r -> fst (authorize a u r) = true ->
-  reply_of (ref_handle_frame H l a units fr) = adu l (f_tx fr) u (snd (fst (ref_exec H fc u st r))) /\
-  units_of (ref_handle_frame H l a units fr) = update u (fst (fst (ref_exec H fc u st r))) units.
+Lemma ref_frame_served {St} (H : handler St) l a (units : ucfg St) fr u h st fc r :
+  f_dest fr = DUnit u -> lookup u (u_map units) = Some h -> u_store units h = st ->
+  decode (f_pdu fr) = Valid fc r -> fst (authorize a u r) = true ->
+  reply_of (ref_handle_frame H l a units fr) = adu l (f_tx fr) u (snd (fst (ref_exec H fc h st r))) /\
+  units_of (ref_handle_frame H l a units fr) = with_store units (sset (u_store units) h (fst (fst (ref_exec H fc h st r)))).
 Proof.
-  intros Hd Hl Hdec Hau. unfold ref_handle_frame. rewrite Hdec, Hd. cbn [dest_value].
+  intros Hd Hl <- Hdec Hau. unfold ref_handle_frame. rewrite Hdec, Hd. cbn [dest_value].
   destruct (authorize a u r) as [ok alog]. cbn [fst] in Hau. subst ok. cbn [negb]. rewrite Hl.
-  destruct (ref_exec H fc u st r) as [[st' pdu] lg]. split; reflexivity.
+  destruct (ref_exec H fc h (u_store units h) r) as [[st' pdu] lg]. split; reflexivity.
 Qed.
 
 (* ================================================================ connections: any handler *)
@@ -160,14 +167,14 @@ Context {St : Type}.
 Variable H : handler St.
 
 (* C01_tcp and C01_rtu as one statement *)
-Lemma session_eq l a frames (units : list (N * St)) : Forall (frame_ok l) frames ->
+Lemma session_eq l a frames (units : ucfg St) : Forall (frame_ok l) frames ->
   session H l a units frames =
     (let '(replies, units', log) := ref_session H l a units frames in (replies, units', log, SOpen)).
 Proof. destruct l; [apply C01.C01_tcp | apply C01.C01_rtu]. Qed.
 
 (* the k-th reply of the reference session is the reference reply to the k-th frame on the unit
    map left by the first k frames *)
-Lemma ref_session_nth l a : forall frames (units : list (N * St)) k fr, nth_error frames k = Some fr ->
+Lemma ref_session_nth l a : forall frames (units : ucfg St) k fr, nth_error frames k = Some fr ->
   nth_error (reply_of (ref_session H l a units frames)) k =
     Some (reply_of (ref_handle_frame H l a (units_of (ref_session H l a units (firstn k frames))) fr)).
 Proof.
@@ -180,7 +187,7 @@ Proof.
     destruct (ref_session H l a units' (firstn k frames)) as [[rs1 u1] lg1]. exact IH.
 Qed.
 
-Lemma ref_session_step l a : forall frames (units : list (N * St)) k fr, nth_error frames k = Some fr ->
+Lemma ref_session_step l a : forall frames (units : ucfg St) k fr, nth_error frames k = Some fr ->
   units_of (ref_session H l a units (firstn (S k) frames)) =
     units_of (ref_handle_frame H l a (units_of (ref_session H l a units (firstn k frames))) fr).
 Proof.
@@ -196,20 +203,20 @@ Proof.
     destruct (ref_session H l a units' (firstn k frames)) as [[rs1 u1] lg1]. exact IH.
 Qed.
 
-Lemma units_before_ref l a frames (units : list (N * St)) k : Forall (frame_ok l) frames ->
+Lemma units_before_ref l a frames (units : ucfg St) k : Forall (frame_ok l) frames ->
   units_before H l a units frames k = units_of (ref_session H l a units (firstn k frames)).
 Proof.
   intros Hok. unfold units_before. rewrite (session_eq l a _ units (Forall_firstn _ k _ Hok)).
   destruct (ref_session H l a units (firstn k frames)) as [[rs u1] lg]. reflexivity.
 Qed.
 
-Lemma units_before_0 l a frames (units : list (N * St)) : units_before H l a units frames 0 = units.
+Lemma units_before_0 l a frames (units : ucfg St) : units_before H l a units frames 0 = units.
 Proof. reflexivity. Qed.
 
 (* the code model of a connection, frame by frame: the k-th entry of the replies written is the
    code's reply to the k-th frame on the unit map the first k frames left, which the k-th frame
    takes to the next one *)
-Theorem session_nth : forall l a frames (units : list (N * St)) k fr,
+Theorem session_nth : forall l a frames (units : ucfg St) k fr,
   Forall (frame_ok l) frames -> nth_error frames k = Some fr ->
   exists reply,
     reply_of (handle_frame H l a (units_before H l a units frames k) fr) = Ok reply /\
@@ -249,7 +256,7 @@ Print Assumptions cut_frames_ok.
 
 (* C01_system_tcp / C01_system_rtu read backwards through C01_tcp / C01_rtu: the server as a whole
    IS the code's session over the frames the framing rule delimits *)
-Theorem system_is_session {St} (H : handler St) l a (units : list (N * St)) s chunks fi :
+Theorem system_is_session {St} (H : handler St) l a (units : ucfg St) s chunks fi :
   bytes s -> List.concat chunks = s -> Forall (fun c => c <> []) chunks ->
   fst (server_system H l a units chunks fi) = session H l a units (cut_frames l s fi).
 Proof.
@@ -263,7 +270,7 @@ Section App.
 Variable A : Type.
 Variable W : c_write_handler A.
 Notation H := (ffi_handler W).
-Notation units_t := (list (N * (database * A))).
+Notation units_t := (ucfg (database * A)).
 
 (* ================================================================ (a) one read frame *)
 (* what the reference server computes for a read on the C-ABI handler *)
@@ -287,35 +294,38 @@ Proof.
     destruct (read_seq _ _ _ _) as [x lg]. destruct x as [vs|e]; cbn [regs_response fst snd] in *; now rewrite <- E.
 Qed.
 
-Theorem system_read_frame : forall l a (units : units_t) fr u d app fc r t s n,
-  frame_ok l fr -> f_dest fr = DUnit u -> lookup u units = Some (d, app) ->
+(* the served handler object is the one unit id u maps to (index h); it holds database d and
+   application state app *)
+Theorem system_read_frame : forall l a (units : units_t) fr u h d app fc r t s n,
+  frame_ok l fr -> f_dest fr = DUnit u -> lookup u (u_map units) = Some h -> u_store units h = (d, app) ->
   decode (f_pdu fr) = Valid fc r -> read_target r = Some (t, s, n) -> fst (authorize a u r) = true ->
-  reply_of (handle_frame H l a units fr) = Ok (adu l (f_tx fr) u (read_pdu fc t (abs d t) s n)) /\
-  units_of (handle_frame H l a units fr) = units.
+  let x := handle_frame H l a units fr in
+  reply_of x = Ok (adu l (f_tx fr) u (read_pdu fc t (abs d t) s n)) /\
+  u_map (units_of x) = u_map units /\ forall k, u_store (units_of x) k = u_store units k.
 Proof.
-  intros l a units fr u d app fc r t s n Hok Hd Hl Hdec Ht Hau.
+  intros l a units fr u h d app fc r t s n Hok Hd Hl Hst Hdec Ht Hau x. subst x.
   rewrite (C01.C01_frame _ H l a units fr Hok), lift3_reply, lift3_units.
-  destruct (ref_frame_served H l a units fr u (d, app) fc r Hd Hl Hdec Hau) as [-> ->].
-  rewrite (ffi_ref_exec_read fc u d app r t s n Ht). cbn [fst snd]. split; [reflexivity|].
-  now apply update_same.
+  destruct (ref_frame_served H l a units fr u h (d, app) fc r Hd Hl Hst Hdec Hau) as [-> ->].
+  rewrite (ffi_ref_exec_read fc h d app r t s n Ht). cbn [fst snd with_store u_map u_store].
+  split; [reflexivity|]. split; [reflexivity|]. intros k. now apply sset_id.
 Qed.
 
 (* C19 on the wire: the reply is an exception reply iff the read touches an absent point, and then
    the code is 02 *)
-Theorem system_read_exception_iff : forall l a (units : units_t) fr u d app fc r t s n e,
-  frame_ok l fr -> f_dest fr = DUnit u -> lookup u units = Some (d, app) ->
+Theorem system_read_exception_iff : forall l a (units : units_t) fr u h d app fc r t s n e,
+  frame_ok l fr -> f_dest fr = DUnit u -> lookup u (u_map units) = Some h -> u_store units h = (d, app) ->
   decode (f_pdu fr) = Valid fc r -> read_target r = Some (t, s, n) -> fst (authorize a u r) = true ->
   (reply_of (handle_frame H l a units fr) = Ok (adu l (f_tx fr) u (exception_pdu fc e)) <->
    e = 2 /\ exists k, (k < N.to_nat n)%nat /\ abs d t (s + N.of_nat k) = None).
 Proof.
-  intros l a units fr u d app fc r t s n e Hok Hd Hl Hdec Ht Hau.
-  destruct (system_read_frame l a units fr u d app fc r t s n Hok Hd Hl Hdec Ht Hau) as [-> _].
+  intros l a units fr u h d app fc r t s n e Hok Hd Hl Hst Hdec Ht Hau.
+  destruct (system_read_frame l a units fr u h d app fc r t s n Hok Hd Hl Hst Hdec Ht Hau) as [-> _].
   rewrite <- (read_pdu_exception_iff fc t (abs d t) s n e (decode_read_fc _ _ _ _ _ _ Hdec Ht)).
   split; [|now intros ->]. intros [= E]. exact (adu_inj _ _ _ _ _ E).
 Qed.
 
-Corollary system_read_absent : forall l a (units : units_t) fr u d app fc r t s n,
-  frame_ok l fr -> f_dest fr = DUnit u -> lookup u units = Some (d, app) ->
+Corollary system_read_absent : forall l a (units : units_t) fr u h d app fc r t s n,
+  frame_ok l fr -> f_dest fr = DUnit u -> lookup u (u_map units) = Some h -> u_store units h = (d, app) ->
   decode (f_pdu fr) = Valid fc r -> read_target r = Some (t, s, n) -> fst (authorize a u r) = true ->
   (exists k, (k < N.to_nat n)%nat /\ abs d t (s + N.of_nat k) = None) ->
   reply_of (handle_frame H l a units fr) = Ok (adu l (f_tx fr) u (exception_pdu fc 2)).
@@ -323,19 +333,20 @@ Proof. intros. eapply system_read_exception_iff; eauto. Qed.
 
 (* ... and when every point of the range is present the reply carries exactly their values, in
    ascending address order *)
-Theorem system_read_present : forall l a (units : units_t) fr u d app fc r t s n,
-  frame_ok l fr -> f_dest fr = DUnit u -> lookup u units = Some (d, app) ->
+Theorem system_read_present : forall l a (units : units_t) fr u h d app fc r t s n,
+  frame_ok l fr -> f_dest fr = DUnit u -> lookup u (u_map units) = Some h -> u_store units h = (d, app) ->
   decode (f_pdu fr) = Valid fc r -> read_target r = Some (t, s, n) -> fst (authorize a u r) = true ->
   (forall k, (k < N.to_nat n)%nat -> abs d t (s + N.of_nat k) <> None) ->
   exists vs, map Some vs = map (fun k => abs d t (s + N.of_nat k)) (seq 0 (N.to_nat n)) /\
              reply_of (handle_frame H l a units fr) = Ok (adu l (f_tx fr) u (values_pdu fc t vs)).
 Proof.
-  intros l a units fr u d app fc r t s n Hok Hd Hl Hdec Ht Hau Hall.
-  destruct (system_read_frame l a units fr u d app fc r t s n Hok Hd Hl Hdec Ht Hau) as [-> _].
+  intros l a units fr u h d app fc r t s n Hok Hd Hl Hst Hdec Ht Hau Hall.
+  destruct (system_read_frame l a units fr u h d app fc r t s n Hok Hd Hl Hst Hdec Ht Hau) as [-> _].
   unfold read_pdu. destruct (spec_read (abs d t) s (N.to_nat n)) as [vs|e] eqn:E.
   - exists vs. split; [now apply DatabaseProofs.spec_read_values|reflexivity].
   - exfalso. apply DatabaseProofs.spec_read_exception in E as (_ & k & Hk & Hn). exact (Hall k Hk Hn).
 Qed.
+
 (* ================================================================ (b) one write frame *)
 (* the handler result of a RequestHandlerWrapper write method as an exception byte (None = Ok(())) *)
 Definition write_byte (cb : option (A * database * c_result)) : option N :=
@@ -382,19 +393,24 @@ Proof.
   rewrite <- convert_spec. destruct (reply_exception_byte _); reflexivity.
 Qed.
 
-Theorem system_write_frame : forall l a (units : units_t) fr u d app fc r,
-  frame_ok l fr -> f_dest fr = DUnit u -> lookup u units = Some (d, app) ->
+Theorem system_write_frame : forall l a (units : units_t) fr u h d app fc r,
+  frame_ok l fr -> f_dest fr = DUnit u -> lookup u (u_map units) = Some h -> u_store units h = (d, app) ->
   decode (f_pdu fr) = Valid fc r -> is_write r = true -> fst (authorize a u r) = true ->
   let cb := callback_outcome W app d r in
-  reply_of (handle_frame H l a units fr) = Ok (adu l (f_tx fr) u (write_pdu fc r (option_map client_view cb))) /\
-  units_of (handle_frame H l a units fr) = update u (state_after d app cb) units.
+  let x := handle_frame H l a units fr in
+  reply_of x = Ok (adu l (f_tx fr) u (write_pdu fc r (option_map client_view cb))) /\
+  u_map (units_of x) = u_map units /\
+  u_store (units_of x) h = state_after d app cb /\
+  forall k, k <> h -> u_store (units_of x) k = u_store units k.
 Proof.
-  intros l a units fr u d app fc r Hok Hd Hl Hdec Hw Hau cb.
+  intros l a units fr u h d app fc r Hok Hd Hl Hst Hdec Hw Hau cb x. subst x.
   rewrite (C01.C01_frame _ H l a units fr Hok), lift3_reply, lift3_units.
-  destruct (ref_frame_served H l a units fr u (d, app) fc r Hd Hl Hdec Hau) as [-> ->].
-  rewrite (ref_exec_write H fc u (d, app) r Hw), (ffi_apply_write d app r Hw). cbn [fst snd].
-  fold cb. now rewrite write_response_write_pdu.
+  destruct (ref_frame_served H l a units fr u h (d, app) fc r Hd Hl Hst Hdec Hau) as [-> ->].
+  rewrite (ref_exec_write H fc h (d, app) r Hw), (ffi_apply_write d app r Hw).
+  cbn [fst snd with_store u_map u_store]. fold cb. rewrite write_response_write_pdu.
+  split; [reflexivity|]. split; [reflexivity|]. split; [apply sset_eq|]. intros k Hk. now apply sset_neq.
 Qed.
+
 (* the same reply spelled out over the C enum: success -> echo; a standard exception -> its
    protocol code; Unknown -> the raw code; callback not set -> 01 *)
 Lemma write_pdu_cases fc r (x : A * database * c_result) :
@@ -406,8 +422,8 @@ Lemma write_pdu_cases fc r (x : A * database * c_result) :
     end.
 Proof. destruct x as [[app' d'] [[[] e] raw]]; destruct e; reflexivity. Qed.
 
-Theorem system_write_reply_cases : forall l a (units : units_t) fr u d app fc r,
-  frame_ok l fr -> f_dest fr = DUnit u -> lookup u units = Some (d, app) ->
+Theorem system_write_reply_cases : forall l a (units : units_t) fr u h d app fc r,
+  frame_ok l fr -> f_dest fr = DUnit u -> lookup u (u_map units) = Some h -> u_store units h = (d, app) ->
   decode (f_pdu fr) = Valid fc r -> is_write r = true -> fst (authorize a u r) = true ->
   reply_of (handle_frame H l a units fr) =
     Ok (adu l (f_tx fr) u
@@ -418,87 +434,101 @@ Theorem system_write_reply_cases : forall l a (units : units_t) fr u d app fc r,
           | Some (_, _, (false, e, _)) => exception_pdu fc (ffi_modbus_exception_value e)
           end).
 Proof.
-  intros l a units fr u d app fc r Hok Hd Hl Hdec Hw Hau.
-  destruct (system_write_frame l a units fr u d app fc r Hok Hd Hl Hdec Hw Hau) as [-> _].
+  intros l a units fr u h d app fc r Hok Hd Hl Hst Hdec Hw Hau.
+  destruct (system_write_frame l a units fr u h d app fc r Hok Hd Hl Hst Hdec Hw Hau) as [-> _].
   destruct (callback_outcome W app d r) as [x|]; cbn [option_map]; [|reflexivity].
   rewrite write_pdu_cases. destruct x as [[app' d'] [[[] e] raw]]; reflexivity.
 Qed.
 
 (* ================================================================ (c) a connection *)
 (* In `session` - the code model of a connection on link l - the k-th frame being a permitted read
-   of a unit served at that point: the k-th reply written is the C19 answer computed from the
-   database that unit holds at that point, and the unit map is unchanged. *)
-Theorem system_read_session : forall l a (units : units_t) frames k fr u d app fc r t s n,
+   of a unit id served at that point (by handler object h, holding database d): the k-th reply
+   written is the C19 answer computed from d, and no handler object changes. *)
+Theorem system_read_session : forall l a (units : units_t) frames k fr u h d app fc r t s n,
   Forall (frame_ok l) frames -> nth_error frames k = Some fr ->
-  f_dest fr = DUnit u -> lookup u (units_before H l a units frames k) = Some (d, app) ->
+  f_dest fr = DUnit u -> lookup u (u_map (units_before H l a units frames k)) = Some h ->
+  u_store (units_before H l a units frames k) h = (d, app) ->
   decode (f_pdu fr) = Valid fc r -> read_target r = Some (t, s, n) -> fst (authorize a u r) = true ->
   nth_error (replies_of (session H l a units frames)) k = Some (adu l (f_tx fr) u (read_pdu fc t (abs d t) s n)) /\
-  units_before H l a units frames (S k) = units_before H l a units frames k.
+  u_map (units_before H l a units frames (S k)) = u_map (units_before H l a units frames k) /\
+  forall j, u_store (units_before H l a units frames (S k)) j = u_store (units_before H l a units frames k) j.
 Proof.
-  intros l a units frames k fr u d app fc r t s n Hok Hk Hd Hl Hdec Ht Hau.
+  intros l a units frames k fr u h d app fc r t s n Hok Hk Hd Hl Hst Hdec Ht Hau.
   assert (Hfr : frame_ok l fr) by (rewrite Forall_forall in Hok; apply Hok; eapply nth_error_In; eassumption).
   destruct (session_nth H l a frames units k fr Hok Hk) as (reply & E1 & E2 & E3).
-  destruct (system_read_frame l a _ fr u d app fc r t s n Hfr Hd Hl Hdec Ht Hau) as [R U].
+  destruct (system_read_frame l a _ fr u h d app fc r t s n Hfr Hd Hl Hst Hdec Ht Hau) as (R & U1 & U2).
   pose proof (eq_trans (eq_sym E1) R) as E. injection E as ->.
-  split; [exact E2|]. exact (eq_trans E3 U).
+  split; [exact E2|]. split; [exact (eq_trans (f_equal u_map E3) U1)|].
+  intros j. exact (eq_trans (f_equal (fun c => u_store c j) E3) (U2 j)).
 Qed.
 
 (* ... a permitted write: the k-th reply is the C18 answer for what the application's callback
-   returned when run on the application state and database the unit holds at that point, and the
-   next frame finds that unit with what the callback left *)
-Theorem system_write_session : forall l a (units : units_t) frames k fr u d app fc r,
+   returned when run on the application state and database that handler object holds at that
+   point; the next frame finds the object with what the callback left, and every other object
+   untouched *)
+Theorem system_write_session : forall l a (units : units_t) frames k fr u h d app fc r,
   Forall (frame_ok l) frames -> nth_error frames k = Some fr ->
-  f_dest fr = DUnit u -> lookup u (units_before H l a units frames k) = Some (d, app) ->
+  f_dest fr = DUnit u -> lookup u (u_map (units_before H l a units frames k)) = Some h ->
+  u_store (units_before H l a units frames k) h = (d, app) ->
   decode (f_pdu fr) = Valid fc r -> is_write r = true -> fst (authorize a u r) = true ->
   let cb := callback_outcome W app d r in
   nth_error (replies_of (session H l a units frames)) k
     = Some (adu l (f_tx fr) u (write_pdu fc r (option_map client_view cb))) /\
-  units_before H l a units frames (S k) = update u (state_after d app cb) (units_before H l a units frames k).
+  u_map (units_before H l a units frames (S k)) = u_map (units_before H l a units frames k) /\
+  u_store (units_before H l a units frames (S k)) h = state_after d app cb /\
+  forall j, j <> h -> u_store (units_before H l a units frames (S k)) j = u_store (units_before H l a units frames k) j.
 Proof.
-  intros l a units frames k fr u d app fc r Hok Hk Hd Hl Hdec Hw Hau cb.
+  intros l a units frames k fr u h d app fc r Hok Hk Hd Hl Hst Hdec Hw Hau cb.
   assert (Hfr : frame_ok l fr) by (rewrite Forall_forall in Hok; apply Hok; eapply nth_error_In; eassumption).
   destruct (session_nth H l a frames units k fr Hok Hk) as (reply & E1 & E2 & E3).
-  destruct (system_write_frame l a _ fr u d app fc r Hfr Hd Hl Hdec Hw Hau) as [R U].
+  destruct (system_write_frame l a _ fr u h d app fc r Hfr Hd Hl Hst Hdec Hw Hau) as (R & U1 & U2 & U3).
   pose proof (eq_trans (eq_sym E1) R) as E. injection E as ->.
-  split; [exact E2|]. exact (eq_trans E3 U).
+  split; [exact E2|]. split; [exact (eq_trans (f_equal u_map E3) U1)|].
+  split; [exact (eq_trans (f_equal (fun c => u_store c h) E3) U2)|].
+  intros j Hj. exact (eq_trans (f_equal (fun c => u_store c j) E3) (U3 j Hj)).
 Qed.
 
 (* ================================================================ (d) the server as a whole *)
-(* Bytes s arriving in arbitrary non-empty read chunks, through the production reader, into the
-   session task: the frames are those the framing rule cuts from s, and the k-th reply the server
+(* Bytes bs arriving in arbitrary non-empty read chunks, through the production reader, into the
+   session task: the frames are those the framing rule cuts from bs, and the k-th reply the server
    writes is as above. *)
-Theorem system_read_stream : forall l a (units : units_t) bs chunks fi k fr u d app fc r t s n,
+Theorem system_read_stream : forall l a (units : units_t) bs chunks fi k fr u h d app fc r t s n,
   bytes bs -> List.concat chunks = bs -> Forall (fun c => c <> []) chunks ->
   let frames := cut_frames l bs fi in
   nth_error frames k = Some fr ->
-  f_dest fr = DUnit u -> lookup u (units_before H l a units frames k) = Some (d, app) ->
+  f_dest fr = DUnit u -> lookup u (u_map (units_before H l a units frames k)) = Some h ->
+  u_store (units_before H l a units frames k) h = (d, app) ->
   decode (f_pdu fr) = Valid fc r -> read_target r = Some (t, s, n) -> fst (authorize a u r) = true ->
   nth_error (replies_of (fst (server_system H l a units chunks fi))) k
     = Some (adu l (f_tx fr) u (read_pdu fc t (abs d t) s n)) /\
-  units_before H l a units frames (S k) = units_before H l a units frames k.
+  u_map (units_before H l a units frames (S k)) = u_map (units_before H l a units frames k) /\
+  forall j, u_store (units_before H l a units frames (S k)) j = u_store (units_before H l a units frames k) j.
 Proof.
-  intros l a units bs chunks fi k fr u d app fc r t s n Hb Hc Hne frames Hk Hd Hl Hdec Ht Hau.
+  intros l a units bs chunks fi k fr u h d app fc r t s n Hb Hc Hne frames Hk Hd Hl Hst Hdec Ht Hau.
   rewrite (system_is_session H l a units bs chunks fi Hb Hc Hne).
-  exact (system_read_session l a units frames k fr u d app fc r t s n (cut_frames_ok l bs fi Hb) Hk Hd Hl Hdec Ht Hau).
+  exact (system_read_session l a units frames k fr u h d app fc r t s n (cut_frames_ok l bs fi Hb) Hk Hd Hl Hst Hdec Ht Hau).
 Qed.
 
-Theorem system_write_stream : forall l a (units : units_t) bs chunks fi k fr u d app fc r,
+Theorem system_write_stream : forall l a (units : units_t) bs chunks fi k fr u h d app fc r,
   bytes bs -> List.concat chunks = bs -> Forall (fun c => c <> []) chunks ->
   let frames := cut_frames l bs fi in
   nth_error frames k = Some fr ->
-  f_dest fr = DUnit u -> lookup u (units_before H l a units frames k) = Some (d, app) ->
+  f_dest fr = DUnit u -> lookup u (u_map (units_before H l a units frames k)) = Some h ->
+  u_store (units_before H l a units frames k) h = (d, app) ->
   decode (f_pdu fr) = Valid fc r -> is_write r = true -> fst (authorize a u r) = true ->
   let cb := callback_outcome W app d r in
   nth_error (replies_of (fst (server_system H l a units chunks fi))) k
     = Some (adu l (f_tx fr) u (write_pdu fc r (option_map client_view cb))) /\
-  units_before H l a units frames (S k) = update u (state_after d app cb) (units_before H l a units frames k).
+  u_map (units_before H l a units frames (S k)) = u_map (units_before H l a units frames k) /\
+  u_store (units_before H l a units frames (S k)) h = state_after d app cb /\
+  forall j, j <> h -> u_store (units_before H l a units frames (S k)) j = u_store (units_before H l a units frames k) j.
 Proof.
-  intros l a units bs chunks fi k fr u d app fc r Hb Hc Hne frames Hk Hd Hl Hdec Hw Hau cb.
+  intros l a units bs chunks fi k fr u h d app fc r Hb Hc Hne frames Hk Hd Hl Hst Hdec Hw Hau cb.
   rewrite (system_is_session H l a units bs chunks fi Hb Hc Hne).
-  exact (system_write_session l a units frames k fr u d app fc r (cut_frames_ok l bs fi Hb) Hk Hd Hl Hdec Hw Hau).
+  exact (system_write_session l a units frames k fr u h d app fc r (cut_frames_ok l bs fi Hb) Hk Hd Hl Hst Hdec Hw Hau).
 Qed.
 
-(* the final unit map of the server as a whole is the one after all frames *)
+(* the final unit configuration of the server as a whole is the one after all frames *)
 Theorem system_stream_final_units : forall l a (units : units_t) bs chunks fi,
   bytes bs -> List.concat chunks = bs -> Forall (fun c => c <> []) chunks ->
   final_units_of (fst (server_system H l a units chunks fi))
@@ -510,11 +540,11 @@ Qed.
 
 (* ================================================================ (e) multi-drop (C17) inherited *)
 Theorem ffi_silent : forall l (units : units_t) fr, frame_ok l fr ->
-  reply_of (handle_frame H l NoAuth units fr) <> Ok [] -> exists u, f_dest fr = DUnit u /\ lookup u units <> None.
+  reply_of (handle_frame H l NoAuth units fr) <> Ok [] -> exists u, f_dest fr = DUnit u /\ lookup u (u_map units) <> None.
 Proof. exact (C17.C17_silent _ H). Qed.
 
 Theorem ffi_silent_session : forall l (units : units_t) frames, Forall (frame_ok l) frames ->
-  Forall2 (fun fr reply => reply <> [] -> exists u, f_dest fr = DUnit u /\ In u (map fst units))
+  Forall2 (fun fr reply => reply <> [] -> exists u, f_dest fr = DUnit u /\ In u (map fst (u_map units)))
           frames (replies_of (session H l NoAuth units frames)).
 Proof. exact (C17.C17_silent_session _ H). Qed.
 
@@ -527,21 +557,38 @@ Theorem ffi_broadcast_other : forall l (units : units_t) fr, frame_ok l fr ->
   let x := handle_frame H l NoAuth units fr in reply_of x = Ok [] /\ log_of x = [] /\ units_of x = units.
 Proof. exact (C17.C17_broadcast_other _ H). Qed.
 
-(* a valid broadcast write on the C-ABI server: in unit id order, every unit's callback for the
-   request's function runs exactly once, on that unit's own application state and database, which
-   become what it left; its WriteResult is dropped; nothing is answered *)
-Theorem ffi_broadcast_write : forall l (units : units_t) fr fc r, frame_ok l fr ->
-  f_dest fr = DBroadcast -> decode (f_pdu fr) = Valid fc r -> is_write r = true ->
+(* a request addressed to a unit id acts on exactly the handler object (database + application
+   state) that unit id maps to; every other object is untouched *)
+Theorem ffi_unit_effect : forall l (units : units_t) fr fc r u h, frame_ok l fr ->
+  f_dest fr = DUnit u -> lookup u (u_map units) = Some h -> decode (f_pdu fr) = Valid fc r ->
   let x := handle_frame H l NoAuth units fr in
+  u_map (units_of x) = u_map units /\
+  u_store (units_of x) h = fst (fst (ref_exec H fc h (u_store units h) r)) /\
+  (forall k, k <> h -> u_store (units_of x) k = u_store units k).
+Proof. exact (C17.C17_unit_effect _ H). Qed.
+
+(* a valid broadcast write on the C-ABI server (device map: one RequestHandlerWrapper per unit id,
+   no unit id twice): in unit id order, every unit's callback for the request's function runs
+   exactly once, on that unit's own application state and database, which become what it left;
+   its WriteResult is dropped; nothing else changes; nothing is answered *)
+Theorem ffi_broadcast_write : forall l ids (store : N -> database * A) fr fc r, frame_ok l fr -> NoDup ids ->
+  f_dest fr = DBroadcast -> decode (f_pdu fr) = Valid fc r -> is_write r = true ->
+  let x := handle_frame H l NoAuth (device_map ids store) fr in
   reply_of x = Ok [] /\
-  log_of x = flat_map (fun us => write_call (fst us) r) units /\
-  units_of x = map (fun us : N * (database * A) =>
-                      let '(u, (d, app)) := us in (u, state_after d app (callback_outcome W app d r))) units.
+  log_of x = flat_map (fun u => write_call u r) ids /\
+  u_map (units_of x) = map (fun u => (u, u)) ids /\
+  forall h d app, store h = (d, app) ->
+    u_store (units_of x) h =
+      if in_dec N.eq_dec h ids then state_after d app (callback_outcome W app d r) else (d, app).
 Proof.
-  intros l units fr fc r Hok Hd Hdec Hw x.
-  destruct (C17.C17_broadcast_write _ H l units fr fc r Hok Hd Hdec Hw) as (R & L & U).
-  split; [exact R|]. split; [exact L|]. fold x in U. rewrite U. apply map_ext. intros [u [d app]]. cbn [fst snd].
-  now rewrite (ffi_apply_write d app r Hw).
+  intros l ids store fr fc r Hok Hnd Hd Hdec Hw x.
+  destruct (C17.C17_broadcast_write _ H l (device_map ids store) fr fc r Hok Hd Hdec Hw) as (R & L & U).
+  fold x in R, L, U. split; [exact R|]. split.
+  - rewrite L. cbn [device_map u_map]. now rewrite flat_map_map.
+  - rewrite U. cbn [device_map with_store u_map u_store]. split; [reflexivity|]. intros h d app Hst.
+    rewrite (C17.C17_broadcast_once _ H r (map (fun u : N => (u, u)) ids) store h) by (now rewrite map_snd_diag).
+    rewrite map_snd_diag, Hst. destruct (in_dec N.eq_dec h ids); [|reflexivity].
+    now rewrite (ffi_apply_write d app r Hw).
 Qed.
 End App.
 Print Assumptions system_read_frame.
@@ -559,6 +606,7 @@ Print Assumptions ffi_silent.
 Print Assumptions ffi_silent_session.
 Print Assumptions ffi_broadcast_never_answered.
 Print Assumptions ffi_broadcast_other.
+Print Assumptions ffi_unit_effect.
 Print Assumptions ffi_broadcast_write.
 
 (* ================================================================ (f) non-vacuity *)
@@ -570,6 +618,9 @@ Import Rodbus.Base.Show.
 Definition demo_db : database :=
   {| Database.coils := [(0, true); (1, false); (2, true)]; Database.discrete := [];
      Database.holding := [(5, 4660); (6, 7)]; Database.input := [] |}.
+(* the C ABI's device map with the single endpoint 1, whose handler object holds demo_db and an
+   application counter 0 *)
+Definition demo_units : ucfg (database * N) := device_map [1] (fun _ => (demo_db, 0)).
 Definition demo_frame (tx : N) (pdu : list N) : frame := {| f_tx := Some tx; f_dest := DUnit 1; f_pdu := pdu |}.
 Definition demo_frames : list frame :=
   [ demo_frame 1 [3; 0; 5; 0; 2];                      (* read holding 5-6: present                   -> 1234 0007 *)
@@ -589,19 +640,20 @@ Definition demo_frames : list frame :=
     demo_frame 15 [16; 0; 6; 0; 2; 4; 0; 9; 0; 9];     (* write registers 6-7: 7 absent               -> 90 02 ... *)
     demo_frame 16 [3; 0; 6; 0; 1] ].                   (* ... but 6 stays written (no roll back)      -> 0009 *)
 
-Definition show_replies {St} (x : list (list N) * list (N * St) * list event * session_end) : string :=
+Definition show_replies {U} (x : list (list N) * U * list event * session_end) : string :=
   show_list show_bytes "," (replies_of x).
 
 Example ffi_session_nonvacuous :
-  let x := session (ffi_handler FfiServer.prog_handler) LTcp NoAuth [(1, (demo_db, 0))] demo_frames in
+  let x := session (ffi_handler FfiServer.prog_handler) LTcp NoAuth demo_units demo_frames in
   show_replies x =
     ("00010000000701030412340007,000200000003018302,00030000000601060005BEEF,000400000005010302BEEF," ++
      "000500000003018602,000600000003018628,000700000003018602,000800000006011000050002," ++
      "00090000000701030400010002,000A0000000401010105,000B0000000601050190FF00,000C0000000401010101," ++
      "000D00000006010F00000003,000E0000000401010102,000F00000003019002,0010000000050103020009")%string /\
-  final_units_of x =
-    [(1, ({| Database.coils := [(400, true); (0, false); (1, true); (2, false)]; Database.discrete := [];
-             Database.holding := [(5, 1); (6, 9)]; Database.input := [] |}, 8))] /\
+  u_map (final_units_of x) = [(1, 1)] /\
+  u_store (final_units_of x) 1 =
+    ({| Database.coils := [(400, true); (0, false); (1, true); (2, false)]; Database.discrete := [];
+        Database.holding := [(5, 1); (6, 9)]; Database.input := [] |}, 8) /\
   snd x = SOpen.
 Proof. vm_compute. repeat split; reflexivity. Qed.
 Print Assumptions ffi_session_nonvacuous.
@@ -609,14 +661,14 @@ Print Assumptions ffi_session_nonvacuous.
 (* an application that registers no callback: every write is answered with exception 01, reads
    are served, nothing changes *)
 Example ffi_session_null_nonvacuous :
-  let x := session (ffi_handler FfiServer.null_handler) LTcp NoAuth [(1, (demo_db, 0))] demo_frames in
+  let x := session (ffi_handler FfiServer.null_handler) LTcp NoAuth demo_units demo_frames in
   show_replies x =
     ("00010000000701030412340007,000200000003018302,000300000003018601,0004000000050103021234," ++
      "000500000003018601,000600000003018601,000700000003018601,000800000003019001," ++
      "00090000000701030412340007,000A0000000401010105,000B00000003018501,000C00000003018102," ++
      "000D00000003018F01,000E0000000401010105,000F00000003019001,0010000000050103020007")%string /\
-  final_units_of x = [(1, (demo_db, 0))].
-Proof. vm_compute. split; reflexivity. Qed.
+  u_map (final_units_of x) = [(1, 1)] /\ u_store (final_units_of x) 1 = (demo_db, 0).
+Proof. vm_compute. repeat split; reflexivity. Qed.
 Print Assumptions ffi_session_null_nonvacuous.
 
 (* the server as a whole: four requests arriving in six reads that split headers and PDUs, then a
@@ -626,11 +678,11 @@ Definition demo_stream : list (list N) :=
     [0; 1; 0; 3; 0; 0; 0; 6; 1; 6; 0; 5; 190; 239; 0; 4; 0; 0; 0; 6; 1; 3; 0; 5; 0]; [1]; [0; 5] ].
 
 Example ffi_stream_nonvacuous :
-  let x := server_system (ffi_handler FfiServer.prog_handler) LTcp NoAuth [(1, (demo_db, 0))] demo_stream F.FinEof in
+  let x := server_system (ffi_handler FfiServer.prog_handler) LTcp NoAuth demo_units demo_stream F.FinEof in
   show_replies (fst x) = "000100000003018302,000200000003018628,00030000000601060005BEEF,000400000005010302BEEF"%string /\
-  final_units_of (fst x) =
-    [(1, ({| Database.coils := [(0, true); (1, false); (2, true)]; Database.discrete := [];
-             Database.holding := [(5, 48879); (6, 7)]; Database.input := [] |}, 2))] /\
+  u_store (final_units_of (fst x)) 1 =
+    ({| Database.coils := [(0, true); (1, false); (2, true)]; Database.discrete := [];
+        Database.holding := [(5, 48879); (6, 7)]; Database.input := [] |}, 2) /\
   snd x = F.EndIo F.UnexpectedEof.
 Proof. vm_compute. repeat split; reflexivity. Qed.
 Print Assumptions ffi_stream_nonvacuous.
@@ -638,16 +690,30 @@ Print Assumptions ffi_stream_nonvacuous.
 (* the hypotheses of the stream theorems are satisfiable: system_write_stream applied to the second
    request of demo_stream (write register 150: the callback answers Unknown with raw code 40) *)
 Example ffi_stream_theorem_instance :
-  nth_error (replies_of (fst (server_system (ffi_handler FfiServer.prog_handler) LTcp NoAuth [(1, (demo_db, 0))] demo_stream F.FinEof))) 1
+  nth_error (replies_of (fst (server_system (ffi_handler FfiServer.prog_handler) LTcp NoAuth demo_units demo_stream F.FinEof))) 1
   = Some (adu LTcp (Some 2) 1 (write_pdu 6 (WriteSingleRegister 150 1) (Some (false, "Unknown"%string, 40)))).
 Proof.
   assert (Hb : bytes (List.concat demo_stream)) by (vm_compute; repeat constructor).
   assert (Hne : Forall (fun c : list N => c <> []) demo_stream) by (repeat constructor; discriminate).
-  refine (proj1 (system_write_stream N FfiServer.prog_handler LTcp NoAuth [(1, (demo_db, 0))] _ demo_stream F.FinEof 1
-                   (demo_frame 2 [6; 0; 150; 0; 1]) 1 demo_db 0 6 (WriteSingleRegister 150 1) Hb eq_refl Hne _ _ _ _ _ _));
+  refine (proj1 (system_write_stream N FfiServer.prog_handler LTcp NoAuth demo_units _ demo_stream F.FinEof 1
+                   (demo_frame 2 [6; 0; 150; 0; 1]) 1 1 demo_db 0 6 (WriteSingleRegister 150 1) Hb eq_refl Hne _ _ _ _ _ _ _));
     vm_compute; reflexivity.
 Qed.
 Print Assumptions ffi_stream_theorem_instance.
+
+(* multi-drop: endpoints 1 and 2 on a serial line; a broadcast write of register 5 runs each
+   endpoint's callback once on its own database, is not answered, and leaves handler index 3
+   (no endpoint) alone *)
+Example ffi_broadcast_nonvacuous :
+  let x := handle_frame (ffi_handler FfiServer.prog_handler) LRtu NoAuth (device_map [1; 2] (fun _ => (demo_db, 0)))
+             {| f_tx := None; f_dest := DBroadcast; f_pdu := [6; 0; 5; 1; 2] |} in
+  reply_of x = Ok [] /\
+  log_of x = [EvWriteSingleRegister 1 5 258; EvWriteSingleRegister 2 5 258] /\
+  Database.holding (fst (u_store (units_of x) 1)) = [(5, 258); (6, 7)] /\ snd (u_store (units_of x) 1) = 1 /\
+  Database.holding (fst (u_store (units_of x) 2)) = [(5, 258); (6, 7)] /\ snd (u_store (units_of x) 2) = 1 /\
+  u_store (units_of x) 3 = (demo_db, 0).
+Proof. vm_compute. repeat split; reflexivity. Qed.
+Print Assumptions ffi_broadcast_nonvacuous.
 
 (* what the Spec prescribes, spelled out on instances: absent point -> 02; success -> echo;
    standard exception -> its protocol code; Unknown -> the raw code; no callback -> 01 *)
